@@ -17,7 +17,7 @@ from concurrent.futures import ThreadPoolExecutor
 from . import compdb
 
 PLUGIN = os.path.join(compdb.WORK, "mmdfacts.so")
-CACHE = os.path.join(compdb.WORK, "cache")
+CACHE = os.environ.get("MMD_CACHE") or os.path.join(compdb.WORK, "cache")
 
 
 class AnalysisBroken(Exception):
@@ -44,6 +44,25 @@ def _headers_digest():
     vh = os.path.join(compdb.version_include_dir(), "version.h")
     h.update(open(vh, "rb").read())
     return h.hexdigest()
+
+
+def prune_cache(limit=3 << 30):
+    """Keep the facts cache bounded: drop the oldest files once it exceeds `limit` bytes."""
+    try:
+        ents = [(e.stat().st_mtime, e.stat().st_size, e.path) for e in os.scandir(CACHE) if e.is_file()]
+    except OSError:
+        return
+    total = sum(e[1] for e in ents)
+    if total <= limit:
+        return
+    for mt, sz, path in sorted(ents):
+        try:
+            os.unlink(path)
+        except OSError:
+            pass
+        total -= sz
+        if total <= limit // 2:
+            break
 
 
 def ensure_plugin():
@@ -459,6 +478,7 @@ class Program:
 
     def __init__(self, config="default", units=None):
         ensure_plugin()
+        prune_cache()
         self.config = config
         rels = compdb.src_units()
         if units is not None:
